@@ -107,12 +107,47 @@ def gen_cases(ctx, rng):
         cases.append({"dir": rng.choice(["upstream", "downstream"]), "chain": chain, "src": src, "ops": ops, "horizon": 600000 * L.MS,
                       "seed": 7000 + i, "expect_chain": live, "drain": {"at": R, "how": how, "holder": holder["type"]}})
         stats["draining_connections"] += 1
+    # an add / remove / update arriving while the connection's stage is stuck for 6.5-15 s handing data to a receiver that does not
+    # read: the request waits for the stage, and once it has returned that connection too is subject to exactly the listed toxics
+    stats["operation_while_stalled"] = 0
+    for i in range(12 if ctx.tier == "quick" else 300):
+        slow = rng.choice([6500, 9000, 15000]) * L.MS
+        how = rng.choice(["add_limit0", "remove_latency", "update_latency"])
+        D = 800
+        if how == "add_limit0":
+            chain, A = ([L.tx("noop", name="n0")] if rng.chance(1, 2) else []), 1 * L.MS + slow
+            op = {"op": "add", "toxic": L.tx("limit_data", name="d", bytes=0)}
+        else:
+            chain, A = [L.tx("latency", name="l", latency=D, jitter=0)], (1 + D) * L.MS + slow
+            op = {"op": "remove", "name": "l"} if how == "remove_latency" else {"op": "update", "name": "l", "body": '{"attributes": {"latency": 0}}'}
+        op["at"] = A - slow + rng.range(100, 900) * L.MS + rng.range(1, 999)
+        t3 = A + rng.range(2000, 4000) * L.MS + 13
+        src = [{"at": 1 * L.MS, "n": 100}, {"at": 2 * L.MS, "n": 100}, {"at": t3, "n": 300}, {"at": t3 + 20000 * L.MS, "close": True}]
+        cases.append({"dir": rng.choice(["upstream", "downstream"]), "chain": chain, "src": src, "ops": [op], "sink_delay": [slow, 0, 0, 0, 0, 0],
+                      "horizon": 3600 * 1000 * L.MS, "seed": 9000 + i, "stalled_op": {"how": how, "t3": t3, "A": A}})
+        stats["operation_while_stalled"] += 1
     return cases, stats
 
 
 def oracle(case, res):
     if res is None or "crash" in res:
         return "the process crashed (a stage of the wrong toxic was started?): " + (res or {}).get("crash", "")[-400:]
+    if "stalled_op" in case:
+        so = case["stalled_op"]
+        late = [w for w in (res["writes"] or []) if w["t"] >= so["t3"]]
+        if so["how"] == "add_limit0":
+            if late:
+                return ("a limit_data toxic of 0 bytes was added while the connection's stage was stalled towards its receiver; the request returned at %s ns, "
+                        "yet %d bytes sent afterwards were delivered on that connection (the listed toxic is not in effect on it)"
+                        % ((res.get("ops") or [{}])[0].get("done"), late[0]["n"]))
+            return None
+        if not late:
+            return "the data sent after the stalled operation returned never arrived"
+        if late[0]["t"] != so["t3"]:
+            return ("the latency toxic was %s while the connection's stage was stalled towards its receiver; the request returned, yet data sent at %d ns "
+                    "was forwarded %d ns later (the old toxic is still in effect on that connection)"
+                    % ("removed" if so["how"] == "remove_latency" else "updated to 0", so["t3"], late[0]["t"] - so["t3"]))
+        return None
     if "expect_chain" not in case:
         return None
     for o in (res.get("ops") or []):
@@ -166,12 +201,13 @@ def run(ctx):
     L.run_impl = run_impl
     try:
         return L.run_link_property(
-            ctx, PID, gen_cases, lambda c, r: (r.get("c04_verdict") if r and "crash" not in r else oracle(c, r)),
+            ctx, PID, gen_cases, lambda c, r: (r.get("c04_verdict") if "expect_chain" in c and r and "crash" not in r else oracle(c, r)),
             classify=lambda w: "draining-connection-skipped" if "sender had closed" in w or "draining" in w else "misaligned" if "misaligned" in w else ("crash" if "crashed" in w else ("old-vs-new" if "treat the same probe" in w else "other")),
             rule="histories of 1-7 add/update/remove/reset operations (all toxic types, removals from the middle, name re-use) on a proxy with a busy "
                  "connection whose sender may close mid-history, an idle old connection and a connection established afterwards; after the history "
                  "the verif shim lists chain vs stubs per link and the idle-old and new connections get the same probe; plus connections whose sender "
-                 "has closed while a latency / slow_close toxic still holds their data or close, when that toxic is removed, updated to 0 or reset; non-trivial = at least one "
+                 "has closed while a latency / slow_close toxic still holds their data or close, when that toxic is removed, updated to 0 or reset; plus "
+                 "add / remove / update arriving while the connection's stage is stalled for 6.5-15 s towards its receiver; non-trivial = at least one "
                  "removal or update; distinct by JSON",
             nontrivial=lambda c: any(o["op"] in ("remove", "update", "reset") for o in c.get("ops") or []),
             assumptions=["toxicity 0 or 1 only (deterministic comparison)", "reset_peer is excluded (socket option applied at connect time only, C13)"],
